@@ -251,6 +251,13 @@ def materialise(spec, scale=1.0, rename=None, date_shift=0, permute=True, id_int
       if r is not None and r[1] < float('inf'):
         kw['budget_range'] = (r[0], r[1])
     sp = Space(c.df, rows, kw, c.resp_col)
+  if not sp.reject and p.get('budget_rel') is not None and kw.get('iroas') and getattr(sp, 'gimp', None):
+    # budget cap placed relative to the largest optimistic single-geo budget among the treatable geos (no enumeration of
+    # the design space: used for panels with many geos)
+    vals = [sp.gimp[g] / kw['iroas'] for g in sp.assignable if sp.elig[g][1] and sp.gimp[g] == sp.gimp[g] and sp.gimp[g] > 0]
+    if vals:
+      kw['budget_range'] = (0.0, max(vals) * float(p['budget_rel']))
+      sp = Space(c.df, rows, kw, c.resp_col)
   c.kwargs = kw
   c.space = sp
   c.elig_rows = rows
